@@ -44,6 +44,17 @@ pub const SRC_POOL: &[&str] = &[
     "../up.js",
     "./here.js",
     "/very/long/ünïcödé/päth/with/many/bytes/ßßßß/モジュール.js",
+    // names that only look absolute / only look relative (the rule is: "/", "http:", "https:")
+    "http-client.js",
+    "https.js",
+    "httpd/server.c",
+    "http",
+    "https:",
+    "HTTP://H/upper.js",
+    "//net/x.js",
+    "file:///f.js",
+    "C:/win/x.js",
+    "ftp://h/z.js",
 ];
 
 pub const NAME_POOL: &[&str] = &[
